@@ -3,7 +3,7 @@ import Retro.Drv.RenderCommon
 namespace Retro.Drv.C01
 open Retro Retro.Render Retro.Drv Retro.Drv.RenderCommon
 
-def handle (case impl : List String) : Verdict :=
+def handleCore (case impl : List String) : Verdict :=
   let s := parseScene case
   let io := parseImpl impl
   if nonFiniteInput s io then bad "non-finite scene" else
@@ -39,5 +39,9 @@ def handle (case impl : List String) : Verdict :=
     match viol with
     | some (key, msg) => v.withSpec true key msg
     | none => v
+
+/-- `handleCore` plus the Float32 diagnostic tag (`RenderCommon.withF32`; never changes the status). -/
+def handle (case impl : List String) : Verdict :=
+  withF32 case impl (handleCore case impl)
 
 end Retro.Drv.C01
